@@ -138,13 +138,13 @@ func frameBytes(body []byte) []byte {
 // healthyCheck verifies the well-behaved client after a hostile script.
 func (e *c11env) healthyCheck(t ev.TB, kase any, before int64) {
 	// the healthy client must make progress after the script
-	deadline := time.Now().Add(boundArrive)
+	deadline := time.Now().Add(boundArrive())
 	for e.hOK.Load() <= before+1 {
 		if v := e.hErr.Load(); v != nil {
 			ev.Violation(t, c11, "healthy-client-disturbed", kase, "well-behaved client on another connection failed: %v; server log: %v", v, e.log.Records())
 		}
 		if time.Now().After(deadline) {
-			ev.Violation(t, c11, "healthy-client-disturbed", kase, "well-behaved client made no progress for %v after the hostile script", boundArrive)
+			ev.Violation(t, c11, "healthy-client-disturbed", kase, "well-behaved client made no progress for %v after the hostile script", boundArrive())
 		}
 		time.Sleep(time.Millisecond)
 	}
@@ -245,17 +245,17 @@ func TestC11_Handshake(t *testing.T) {
 		p.WriteBytes(frameBytes(netfx.Encode(netfx.OpenMsg(netfx.MakeID(c11seq.Load()+1000000), 1<<20, []byte(mk+"-second")))))
 		if mustServe {
 			kase.Expect = "handshake is valid: served"
-			deadline := time.Now().Add(boundArrive)
+			deadline := time.Now().Add(boundArrive())
 			for e.handlerCount(mk) < 2 {
 				if time.Now().After(deadline) {
-					ev.Violation(rt, c11, "valid-handshake-not-served", kase, "handler invoked %d times for a valid negotiation (want 2) within %v", e.handlerCount(mk), boundArrive)
+					ev.Violation(rt, c11, "valid-handshake-not-served", kase, "handler invoked %d times for a valid negotiation (want 2) within %v", e.handlerCount(mk), boundArrive())
 				}
 				time.Sleep(time.Millisecond)
 			}
 		} else {
 			kase.Expect = fmt.Sprintf("no handler; closed=%v", mustClose)
 			if mustClose {
-				if err := p.ExpectEOF(boundArrive); err != nil {
+				if err := p.ExpectEOF(boundArrive()); err != nil {
 					ev.Violation(rt, c11, "violating-connection-not-closed", kase, "server did not close a connection that violated the handshake (%s): %v", v, err)
 				}
 			} else {
